@@ -898,6 +898,14 @@ func bgWalk(c *Ctx, kind string) {
 	takeover := c.Rng.Intn(12) == 0 // a second BatchRelease (other UID) takes the workload over mid-way
 	step := func(op string, f bgFault) (string, bool) {
 		in := bgIn{Kind: kind, World: world, BR: br, Op: op, Fault: f, Orig: orig}
+		if c.Rng.Intn(6) == 0 {
+			// the same call from the same mid-release world: cut short by a write fault, then repeated
+			rin := in
+			k := c.Rng.Intn(3)
+			rin.Fault = bgFault{Write: &k}
+			rin.Orig = nil
+			bgRetry(c, rin)
+		}
 		impl := bgStep(c, in)
 		w, ok := bgWorldOf(impl)
 		if !ok {
@@ -1053,9 +1061,9 @@ func runCtlBlueGreen(c *Ctx) {
 	for c.Count < c.N {
 		kind := pickS(c, "deployment", "cloneSet")
 		switch c.Rng.Intn(10) {
-		case 0, 1, 2, 3, 4:
+		case 0, 1, 2:
 			bgWalk(c, kind)
-		case 5, 6:
+		case 3, 4, 5, 6:
 			in := bgGenAny(c, kind)
 			if in.Fault.Write == nil && !in.Fault.Get && !in.Fault.ListV1 && !in.Fault.ListV2 {
 				k := c.Rng.Intn(3)
